@@ -18,13 +18,9 @@ from sim.env import SimEnv, UNIT
 
 ID = "C08"
 LEVEL = "exploration"
-QUICK_N = 40000
+QUICK_N = 80000
 THOROUGH_N = 2000000
-# The runner keeps at most 6 violating scenarios per chunk whatever their keys: small chunks in
-# quick so that seeds hitting already-known defects cannot crowd out a new kind of violation;
-# larger ones in thorough to bound what the parent process has to hold.
-CHUNK = 400 if ("thorough" in __import__("sys").argv
-                or __import__("os").environ.get("VERIF_TIER") == "thorough") else 25
+CHUNK = 400
 RULE = ("gen(seed): response stream from a grammar (status-line variants, 0-2 interim 1xx, "
         "CL/chunked/close-delimited/none framing, 204/304/HEAD, gzip valid/truncated/garbage, "
         "malformed CL/TE/chunk/header variants, trailing bytes), truncated at a structural offset "
